@@ -21,6 +21,13 @@ import (
 	"pgregory.net/rapid"
 )
 
+// HarnessBug is panicked by checks when the harness itself cannot proceed
+// (never a violation: the run becomes inconclusive).
+type HarnessBug string
+
+func (b HarnessBug) Error() string      { return "harness bug: " + string(b) }
+func (b HarnessBug) IsHarnessBug() bool { return true }
+
 // Failure describes one violation.  Class identifies the kind of failure (used
 // to match known findings); Msg is free text.
 type Failure struct {
